@@ -37,11 +37,21 @@ def gen_strings(rng, kind, n):
         base = bytes(rng.range(97, 100) for _ in range(40)); out = [base[:rng.range(0, 40)] for _ in range(n)]
     elif kind == "high_bytes":
         out = [bytes(rng.choice([1, 127, 128, 255]) for _ in range(rng.range(0, 10))) for _ in range(n)]
+    elif kind == "prefix_groups":   # a few groups sharing an 8-byte prefix (equal-buckets of very different sizes)
+        groups = [bytes([rng.range(65, 70)]) * 8 for _ in range(rng.range(2, 4))]
+        weights = [rng.range(1, 8) for _ in groups]
+        tot = sum(weights)
+        for _ in range(n):
+            r = rng.below(tot + 1)
+            if r == tot: out.append(bytes([65]) + bytes(rng.range(97, 122) for _ in range(rng.range(0, 6)))); continue
+            g = 0
+            while r >= weights[g]: r -= weights[g]; g += 1
+            out.append(groups[g] + bytes(rng.range(97, 122) for _ in range(6)))
     else:
         out = [bytes(rng.range(1, 255) for _ in range(rng.range(0, 24))) for _ in range(n)]
     return out
 
-KINDS = ["equal_short", "equal_long", "two_valued", "degenerate", "small_alpha", "prefix_chain", "high_bytes", "random"]
+KINDS = ["equal_short", "equal_long", "two_valued", "degenerate", "small_alpha", "prefix_chain", "high_bytes", "random", "prefix_groups"]
 
 def load_corpus():
     p = os.path.join(verif.VERIF, "corpus", "C04", "cases.txt")
@@ -58,7 +68,7 @@ else:
         kind = KINDS[k % len(KINDS)]
         n = rng.choice([0, 1, 2, 3, 15, 16, 17, 31, 32, 33]) if rng.chance(1, 5) else rng.range(4, 220 if ck.thorough() else 140)
         strs = gen_strings(rng, kind, n)
-        params = rng.choice(["T", "T", "U"]); workers = rng.range(1, 4); lcp = rng.below(2); st = rng.choice(["c", "c", "s"])
+        params = rng.choice(["T", "T", "U", "V"]); workers = rng.range(1, 4); lcp = rng.below(2); st = rng.choice(["c", "c", "s"])
         nsched = 6 if ck.thorough() else 3
         cases.append("g%d_%s %s %d %d %s %d %d %s" % (k, kind, params, workers, lcp, st, nsched, rng.below(1 << 30), ",".join(hx(s) for s in strs) if strs else "-"))
         dist[kind] = dist.get(kind, 0) + 1
